@@ -3,6 +3,7 @@ package main
 import (
 	"fmt"
 	"go/constant"
+	"os"
 
 	"golang.org/x/tools/go/ssa"
 )
@@ -132,14 +133,20 @@ func runC17(c *Ctx) {
 			continue
 		}
 		// C17.1
+		// the key may come out of a helper shared by both handlers: what that helper returns
+		// on the outcome known at the accepting return
 		kc, _ := callOf(w.resolveLoad(trueRet.Results[1]))
+		if kc == nil || kc.Call.StaticCallee() != genKey {
+			keyV, _, _ := w.originAt(trueRet.Results[1], trueRet)
+			kc, _ = callOf(keyV)
+		}
 		okKey := false
 		why := "the key is not GenerateAuthKey(...)"
 		if kc != nil && kc.Call.StaticCallee() == genKey {
 			pc, pi := callOf(kc.Call.Args[2])
 			switch {
 			case !w.isFieldLoadOf(kc.Call.Args[0], ra, "Username") || !w.isFieldLoadOf(kc.Call.Args[1], ra, "Realm"):
-				why = "the key is not computed over ra.Username and ra.Realm"
+				why = "the key is not computed over ra.Username and ra.Realm but over " + w.key(kc.Call.Args[0]) + " and " + w.key(kc.Call.Args[1])
 			case pc == nil || pc.Call.StaticCallee() != derive || pi != 0:
 				why = "the key's password is not the result of longTermCredentials"
 			case !w.isFieldLoadOf(pc.Call.Args[0], ra, "Username"):
@@ -190,9 +197,9 @@ func runC17(c *Ctx) {
 			if f.Op != "<" || f.Truth {
 				continue
 			}
-			xc, xi := callOf(stripIntConv(f.X))
+			xc, xi := callOf(stripIntConv(w.unixSeconds(f.X, trueRet)))
 			yc, _ := callOf(f.Y)
-			if xc != nil && xc == atoi && xi == 0 && yc != nil && yc.Call.StaticCallee() != nil && yc.Call.StaticCallee().String() == "(time.Time).Unix" {
+			if xc != nil && (xc == atoi || w.key(xc) == w.key(atoi)) && xi == 0 && yc != nil && yc.Call.StaticCallee() != nil && yc.Call.StaticCallee().String() == "(time.Time).Unix" {
 				if nc, _ := callOf(yc.Call.Args[0]); nc != nil && nc.Call.StaticCallee() == timeNow {
 					okCmp = true
 				}
@@ -243,4 +250,25 @@ func isColonSplit(c *ssa.Call) bool {
 		return okN && (n < 0 || n >= 3)
 	}
 	return false
+}
+
+// unixSeconds: time.Unix(s, 0).Unix() is s (the stamp carried as an instant and read back
+// in whole seconds); any other value is returned unchanged.
+func (w *World) unixSeconds(v ssa.Value, at ssa.Instruction) ssa.Value {
+	uc, _ := callOf(stripIntConv(v))
+	if uc == nil || uc.Call.StaticCallee() == nil || uc.Call.StaticCallee().String() != "(time.Time).Unix" {
+		return v
+	}
+	tv, _, _ := w.originAt(uc.Call.Args[0], at)
+	tc, _ := callOf(tv)
+	if os.Getenv("TURNCHECK_C17DEBUG") != "" {
+		fmt.Fprintf(os.Stderr, "unixSeconds: arg=%s origin=%s (%T)\n", w.key(uc.Call.Args[0]), w.key(tv), tv)
+	}
+	if tc == nil || tc.Call.StaticCallee() == nil || tc.Call.StaticCallee().String() != "time.Unix" {
+		return v
+	}
+	if k, isK := constInt(tc.Call.Args[1]); !isK || k != 0 {
+		return v
+	}
+	return tc.Call.Args[0]
 }
